@@ -137,9 +137,9 @@ type history struct {
 	nSeries int
 	nTimes  int
 	seg     int
-	mem     map[key]*row  // unflushed rows (field-wise last write wins)
-	gen     map[key]int   // flush generation in which the key was last written
-	xgen    bool          // some key was written in two flush generations
+	mem     map[key]*row // unflushed rows (field-wise last write wins)
+	gen     map[key]int  // flush generation in which the key was last written
+	xgen    bool         // some key was written in two flush generations
 	genNo   int
 	hiWater []int
 	kinds   string
@@ -231,19 +231,19 @@ func (h *history) doFlush() {
 }
 func (h *history) doCompact(lv uint16) {
 	h.script = append(h.script, fmt.Sprintf("c %d", lv))
-	hx.Safe(func() { _ = h.sh.LevelCompact(lv) })
+	hx.Safe(func() { _ = h.sh.LevelCompact(lv); h.sh.Quiesce() })
 	h.kinds += "c"
 	h.c.Count("op:level-compact")
 }
 func (h *history) doFullCompact() {
 	h.script = append(h.script, "C")
-	hx.Safe(func() { _ = h.sh.FullCompact() })
+	hx.Safe(func() { _ = h.sh.FullCompact(); h.sh.Quiesce() })
 	h.kinds += "C"
 	h.c.Count("op:full-compact")
 }
 func (h *history) doMerge(full bool) {
 	h.script = append(h.script, fmt.Sprintf("m %v", full))
-	hx.Safe(func() { _ = h.sh.MergeOutOfOrder(full, true) })
+	hx.Safe(func() { _ = h.sh.MergeOutOfOrder(full, true); h.sh.Quiesce() })
 	h.kinds += "m"
 	h.c.Count("op:merge-ooo")
 }
@@ -343,6 +343,8 @@ func relSec(ns int64) (int, bool) {
 func (h *history) emitLayout() (*layout, bool) {
 	c := h.c
 	lay := &layout{mem: map[int][]row{}}
+	// no compaction or merge may change the files between this read-back and the queries
+	h.sh.Quiesce()
 	h.sh.FlushIndex()
 	if h.sid == nil || len(h.sid) < h.nSeries {
 		ids, err := h.sh.SeriesIDs("m", engine.VerifField{Name: "fi", Type: influxql.Integer})
@@ -391,7 +393,11 @@ func (h *history) emitLayout() (*layout, bool) {
 		}
 		c.Emit(fmt.Sprintf("file %s %d", kind, f.Seq), "ok")
 		info := fileInfo{order: f.Order, seq: f.Seq}
-		for _, ch := range f.Chunks {
+		// chunks are stored by series id; ids are handed out in an order that is not fixed by the
+		// history (index creation): emit them by series number
+		chunks := append(f.Chunks[:0:0], f.Chunks...)
+		sort.SliceStable(chunks, func(a, b int) bool { return h.sid[chunks[a].Sid] < h.sid[chunks[b].Sid] })
+		for _, ch := range chunks {
 			s, ok := h.sid[ch.Sid]
 			if !ok {
 				c.Emit("note unknown-sid", fmt.Sprintf("err sid %d", ch.Sid))
@@ -680,7 +686,8 @@ func limitDen(r *big.Rat, maxDen int64) *big.Rat {
 }
 
 // canonical aggregate answer:
-//   ans <group>{<bucket>=<v>,<v>[@t];…} …      groups sorted, buckets ascending by time
+//
+//	ans <group>{<bucket>=<v>,<v>[@t];…} …      groups sorted, buckets ascending by time
 type aggCell struct {
 	text string
 	null bool
@@ -719,7 +726,10 @@ func renderAgg(groups map[string][]aggRow, flags string) string {
 	return s + flags
 }
 
-func (h *history) runAgg(q aggQuery, raw map[int][]row) (string, map[string][]aggRow) {
+// runAgg runs the query; twice = some series holds a timestamp of the range in two containers
+// (the excluded case of an un-hinted eligible query: the time of a lone min/max is then not
+// compared, the statistics path sees rows the plain select does not show).
+func (h *history) runAgg(q aggQuery, raw map[int][]row, twice bool) (string, map[string][]aggRow) {
 	var res []engine.VerifSeries
 	var err error
 	perr := hx.Safe(func() { res, err = h.sh.Query(q.sql(), qlFields, tagKeys, 0) })
@@ -811,6 +821,15 @@ func (h *history) runAgg(q aggQuery, raw map[int][]row) (string, map[string][]ag
 	}
 	if raw != nil {
 		canonTies(q, groups, raw)
+	}
+	if lone && twice && q.eligible() && (q.calls[0].f == "min" || q.calls[0].f == "max") {
+		for _, rows := range groups {
+			for ri := range rows {
+				if rows[ri].at != "" {
+					rows[ri].at = "@~"
+				}
+			}
+		}
 	}
 	return renderAgg(groups, flags), orig
 }
@@ -1299,7 +1318,7 @@ func (h *history) checkpoint(nq int) {
 				raw = rr
 			}
 		}
-		ans, got := h.runAgg(q, raw)
+		ans, got := h.runAgg(q, raw, keyTwiceIn(lay, q.lo, q.hi))
 		line := c.Emit(q.opText(), ans)
 		if c.Arg("debug", "") != "" {
 			fmt.Fprintf(os.Stderr, "C09DBG %d %s\n    -> %s\n", line, q.sql(), ans)
@@ -1493,7 +1512,10 @@ func runReplay(c *hx.Ctx, path string) error {
 			if err != nil {
 				return err
 			}
-			sh.DisableBackground()
+			// (not DisableBackground: it closes the table store's task scheduler for good, after which
+			// level and full compaction run or not at random)
+			sh.DetachFromCompactor()
+			sh.Quiesce()
 			h.sh = sh
 			seg := h.seg
 			if seg == 0 {
@@ -1538,7 +1560,7 @@ func runReplay(c *hx.Ctx, path string) error {
 					raw = rr
 				}
 			}
-			ans, got := h.runAgg(q, raw)
+			ans, got := h.runAgg(q, raw, keyTwiceIn(lay, q.lo, q.hi))
 			line := c.Emit(q.opText(), ans)
 			c.Case(q.opText(), true)
 			fmt.Fprintf(os.Stderr, "C09 replay: %s\n    -> %s\n", q.sql(), ans)
@@ -1598,7 +1620,7 @@ func runHistory(c *hx.Ctx, r *hx.Rng, idx int) error {
 	defer os.RemoveAll(dir)
 	h := &history{c: c, r: r, idx: idx, mem: map[key]*row{}, gen: map[key]int{}}
 	h.seg = []int{8, 8, 8, 16, 24}[r.Intn(5)] // multiples of 8: other limits crash the out-of-order merge (bitmap offset)
-	if v := c.Arg("seg", ""); v != "" { // rows-per-segment override (debugging)
+	if v := c.Arg("seg", ""); v != "" {       // rows-per-segment override (debugging)
 		h.seg, _ = strconv.Atoi(v)
 	}
 	h.nSeries = 2 + r.Intn(3)
@@ -1619,7 +1641,10 @@ func runHistory(c *hx.Ctx, r *hx.Rng, idx int) error {
 	if err != nil {
 		return err
 	}
-	sh.DisableBackground()
+	// (not DisableBackground: it closes the table store's task scheduler for good, after which
+	// level and full compaction run or not at random)
+	sh.DetachFromCompactor()
+	sh.Quiesce()
 	h.sh = sh
 	segForModel := h.seg
 	if segForModel == 0 {
